@@ -180,7 +180,10 @@ timeo_cb(int UNUSED(signum))
 		sigaction(SIGALRM, &sa, NULL);
 	}
 	block_sigs();
-	kill(chld, SIGXCPU);
+	/* the job is a process group of its own, see run_task() */
+	if (kill(-chld, SIGXCPU) < 0) {
+		kill(chld, SIGXCPU);
+	}
 	return;
 }
 
@@ -860,7 +863,23 @@ cannot initialise file actions: %s", STRERR);
 
 	/* spawn the actual beef process */
 	/* posix_spawn() hands back the error, it is not in errno */
-	if ((errno = posix_spawn(&chld, *args, &fa, NULL, deconst(args), env))) {
+	with (posix_spawnattr_t sa, *sap = NULL) {
+		int e;
+
+		/* a group of its own for the job, so that the deadline
+		 * reaches whatever the shell has started as well */
+		if (posix_spawnattr_init(&sa) == 0) {
+			posix_spawnattr_setpgroup(&sa, 0);
+			posix_spawnattr_setflags(&sa, POSIX_SPAWN_SETPGROUP);
+			sap = &sa;
+		}
+		e = posix_spawn(&chld, *args, &fa, sap, deconst(args), env);
+		if (sap != NULL) {
+			posix_spawnattr_destroy(sap);
+		}
+		errno = e;
+	}
+	if (errno) {
 		ECHS_ERR_LOG("cannot spawn `%s': %s", *args, STRERR);
 		rc = -1;
 		t->xc = 127;
